@@ -26,6 +26,7 @@ import (
 	"os"
 	"sort"
 	"strings"
+	"time"
 
 	"github.com/ipfs/go-cid"
 	cbor "github.com/ipfs/go-ipld-cbor"
@@ -35,6 +36,7 @@ import (
 	mh "github.com/multiformats/go-multihash"
 	"github.com/storacha/go-ucanto/client"
 	"github.com/storacha/go-ucanto/core/car"
+	"github.com/storacha/go-ucanto/core/delegation"
 	"github.com/storacha/go-ucanto/core/invocation"
 	"github.com/storacha/go-ucanto/core/ipld"
 	"github.com/storacha/go-ucanto/core/ipld/block"
@@ -433,7 +435,7 @@ type bytesCaseJSON struct {
 // other replies of the C15 generator -> structured
 func bytesKind(label string) string {
 	f := strings.SplitN(label, " ", 3)
-	if len(f) == 3 && f[0] == "reply" {
+	if len(f) == 3 && (f[0] == "reply" || f[0] == "body" || f[0] == "item") {
 		label = f[2]
 	}
 	switch {
@@ -1151,4 +1153,105 @@ func init() {
 		fmt.Printf("{\"client_execute\": %q, \"request_decode\": %q}\n", c.Resp.summary(), c.Req.summary())
 		return 0
 	}
+}
+
+// bytesWatchdog: a reply on which client.Execute (or an accessor) never returns is as bad as a crash.
+// Seen with a block reader that skips iterator errors: a body shorter than its Content-Length makes
+// net/http return io.ErrUnexpectedEOF on every read, and the CAR iterator then yields errors for ever.
+func bytesWatchdog(what string, d time.Duration) (stop func()) {
+	done := make(chan struct{})
+	go func() {
+		select {
+		case <-done:
+		case <-time.After(d):
+			fmt.Fprintf(os.Stderr, "fatal error: watchdog: %s did not finish within %s (client.Execute or an accessor never returns)\n", what, d)
+			os.Exit(3)
+		}
+	}()
+	return func() { close(done) }
+}
+
+// ---------------------------------------------------------------------------
+// C20: bodies through server.Request with acceptable headers: 400 (and no handler call) exactly when
+// the model says the body is not a decodable agent message
+
+func bytesC20(o genOpts, e *c20Env) error {
+	set := &bytesSet{prefix: "bytes_C20"}
+	var invs []invocation.Invocation
+	for _, can := range []string{"test/echo", "test/raw", "test/none"} {
+		inv, err := invocation.Invoke(e.alice, e.service, ucan.NewCapability(can, e.alice.DID().String(), ucan.NoCaveats{}), delegation.WithNoExpiration())
+		if err != nil {
+			return err
+		}
+		invs = append(invs, inv)
+	}
+	var look []ipld.Link
+	for _, inv := range invs {
+		look = append(look, inv.Link())
+	}
+	look = append(look, fakeLink(1))
+	var other []ipld.Block
+	for _, inv := range invs[:2] {
+		for blk, err := range inv.Blocks() {
+			if err == nil {
+				other = append(other, blk)
+			}
+		}
+	}
+	rc := []ipld.Block{
+		bytesMkBlock(cbMap(cbText("ocm"), cbMap(cbText("ran"), cbLink(look[0]))), ""),
+		bytesMkBlock(cbMap(cbText("ocm"), cbMap(cbText("ran"), cbLink(look[1]))), ""),
+	}
+	var bodies []bytesBody
+	for _, b := range e.bodies {
+		bodies = append(bodies, bytesBody{"c20:" + b.Name, b.Bytes})
+	}
+	nre, nrnd, nmut := 0, 0, 0
+	for _, bb := range bytesBodies(o.seed, o.tier, invs, look, rc, other) {
+		if o.tier != "thorough" {
+			switch k := bytesKind(bb.Label); {
+			case strings.HasPrefix(k, "reencoded"):
+				if nre++; nre > 100 {
+					continue
+				}
+			case k == "random-root":
+				if nrnd++; nrnd > 60 {
+					continue
+				}
+			case k == "rawmut":
+				if nmut++; nmut > 40 {
+					continue
+				}
+			}
+		}
+		bodies = append(bodies, bb)
+	}
+	hdr := c20Header([]string{c20Car}, []string{c20Car})
+	for i, bb := range bodies {
+		c := &bytesCase{Label: fmt.Sprintf("body %d %s", i, bb.Label), Body: bb.Body, Status: 200, Lookups: look}
+		c.Req = bytesObserveReq(bb.Body, look)
+		before := e.calls.Load()
+		var res transport.HTTPResponse
+		var err error
+		if p := recovered(func() { res, err = e.srv.Request(thttp.NewHTTPRequest(bytes.NewReader(bb.Body), hdr)) }); p != nil {
+			c.Req.Panic = fmt.Sprintf("server.Request: %v", p)
+		}
+		calls := int(e.calls.Load() - before)
+		c.Handle = 2
+		if err == nil && res != nil {
+			c.HStatus = res.Status()
+			if res.Body() != nil {
+				io.Copy(io.Discard, res.Body())
+			}
+			if c.HStatus == 400 && calls == 0 {
+				c.Handle = 1
+			}
+		}
+		set.add(c)
+	}
+	shards := 8
+	if o.tier == "thorough" {
+		shards = 48
+	}
+	return set.finish(o.out, shards)
 }
